@@ -19,6 +19,8 @@ def concrete_run(fn, args):
         return "ignored", ""
     except (compat.BoundReached, compat.KnownRegion):
         return "cut", ""
+    except compat.StepBudget:
+        return "fail", "step budget exhausted: the run did not end within the harness's step bound"
     except Exception as e:  # noqa: BLE001
         return "exc", "%s: %s" % (type(e).__name__, str(e)[:300])
     if r is True:
